@@ -23,19 +23,21 @@
 (*                                                                            *)
 (* Named choices where documentation and code differ or the documentation is   *)
 (* silent (DESIGN: judged only as far as documented):                          *)
-(*   NilSendEOF   chan.go:334 says a send on a nil channel reports io.EOF.     *)
+(*   NilSend      chan.go:334 says a send on a nil channel reports io.EOF.     *)
 (*                The code (a select with a nil-channel arm) blocks until the  *)
 (*                context ends (Blocking) / reports "skipped" (NonBlocking).   *)
-(*                FALSE = as observed (all registered configs); TRUE = as      *)
-(*                documented (MC_doc_nil.cfg / Step_doc_nil.cfg demonstrate    *)
-(*                the divergence).                                             *)
+(*                "asis" = as observed; "doc" = as documented (MC_doc_nil.cfg  *)
+(*                and Step_doc_nil.cfg demonstrate the divergence); "either" = *)
+(*                both accepted (all registered configs: the check alarms      *)
+(*                neither on the code as it is nor on code repaired to follow  *)
+(*                its documentation).                                          *)
 (*   both-ready   context cancelled AND the channel arm ready: Go's select     *)
 (*                picks either; the docs promise neither, both are allowed.    *)
 (*   closed+ctx   likewise io.EOF or the context error.                        *)
 (***************************************************************************)
 EXTENDS Integers, Sequences, FiniteSets, TLC
 
-CONSTANT NilSendEOF
+CONSTANT NilSend
 
 MkChan(cap, isnil) == [buf |-> <<>>, closed |-> FALSE, cap |-> cap, nil |-> isnil]
 
@@ -53,11 +55,13 @@ HasCtxArm(meth) == meth # "ok"
 SendArms(c, canc, prs) ==
        (IF canc THEN {"ctx"} ELSE {})
   \cup (IF ~c.nil /\ c.closed THEN {"eof"} ELSE {})                    \* send on closed = recovered panic (chan.go:341-345)
-  \cup (IF c.nil /\ NilSendEOF THEN {"eof"} ELSE {})                   \* as documented only
   \cup (IF ~c.nil /\ ~c.closed /\ (prs \/ Len(c.buf) < c.cap) THEN {"ok"} ELSE {})
 
 SendBase(c, nb, canc, prs) ==
-  LET a == SendArms(c, canc, prs) IN IF a # {} THEN a ELSE IF nb THEN {"skip"} ELSE {"block"}
+  LET a == SendArms(c, canc, prs)
+      asis == IF a # {} THEN a ELSE IF nb THEN {"skip"} ELSE {"block"}
+      doc == {"eof"} \cup (IF canc THEN {"ctx"} ELSE {})                 \* nil channel, as documented (chan.go:334)
+  IN IF ~c.nil \/ NilSend = "asis" THEN asis ELSE IF NilSend = "doc" THEN doc ELSE asis \cup doc
 
 \* pss: a sender is parked on the channel
 RecvArms(c, canc, pss) ==
